@@ -1,6 +1,8 @@
 package chainkit
 
 import (
+	"fmt"
+	"strings"
 	"testing"
 	"time"
 )
@@ -38,5 +40,38 @@ func TestSmoke(t *testing.T) {
 			_ = d
 			b.Close()
 		}
+	}
+}
+
+func TestSmokeNativeSetters(t *testing.T) {
+	b, err := NewBuilder(ChainCfg{Profile: "V1C3", P2PSig: true})
+	if err != nil {
+		t.Fatal(err)
+	}
+	defer b.Close()
+	if _, err := b.Bootstrap(); err != nil {
+		t.Fatal(err)
+	}
+	_, blk, err := b.BuildBlock(BlockSpec{Txs: []Action{
+		{Kind: "native_set", From: 3, S: "Oracle.setPrice", N: 7_0000_0000, Nonce: 1},
+		{Kind: "native_set", From: 3, S: "Notary.setMaxNotValidBeforeDelta", N: 5, Nonce: 2},
+		{Kind: "native_set", From: 3, S: "Management.setMinimumDeploymentFee", N: 1, Nonce: 3},
+		{Kind: "oracle_request", From: 2, A: 0, S: "a", V: []byte("ud"), Nonce: 4},
+		{Kind: "policy", From: 4, S: "setWhitelistFeeContract", A: 0, K: []byte("put"), N: 1000, Nonce: 5},
+		{Kind: "gas_transfer", From: 1, A: 2, N: 5, B: 7, Nonce: 6},
+	}, TimeD: 5})
+	if err != nil {
+		t.Fatal(err)
+	}
+	a := AERs(b.N.BC, blk.Hash(), blk.Transactions, false)
+	for i := range blk.Transactions {
+		s := a[fmt.Sprintf("aer/tx%d/0", i)]
+		t.Log(i, s[:min(len(s), 400)])
+		if i != 3 && !strings.Contains(s, `"HALT"`) { // tx 3 pays the price raised by tx 0 of the same block: out of gas
+			t.Errorf("tx %d did not HALT", i)
+		}
+	}
+	if len(blk.Transactions) != 6 {
+		t.Fatalf("%d txs, rejected %v", len(blk.Transactions), b.Rejected)
 	}
 }
